@@ -283,6 +283,190 @@ class Client(pipeline.Stream):
         return ser.from_json(j)
 
 
+from harness.props import c06 as C06      # noqa: E402
+
+
+class ChattyPeer(C06.Main):
+    """client side against a peer that ANSWERS notifications (a 1.0 server, a foreign or lenient server, a proxy): whatever
+    non-error response object comes back, proxy._notify.<method>(...) returns None; an error in the answer surfaces as for any
+    reply (C06).  Same model function as C06 (path PNotify of Client.c06_check)."""
+    name = "chatty"
+
+    def gen(self, tier, rng):
+        cases = []
+        results = ["<absent>", None, 0, False, "", [], {}, 1, "ack:x", {"a": [1, 2.5]}, [None], 1.5, True]
+        for env_form, res, rid in itertools.product(C06.ENVELOPES, results, [7, None, "", "n-1", "<absent>"]):
+            for err in ("<absent>", None):
+                reply = C06.build_reply(env_form, err, res)
+                if rid == "<absent>":
+                    del reply["id"]
+                else:
+                    reply["id"] = rid
+                cases.append({"path": ("notify",), "reply": reply})
+        for e in C06.error_pool()[:12]:
+            cases.append({"path": ("notify",), "reply": C06.build_reply("v2s", e, "<absent>")})
+        return cases
+
+    def oracle(self, case, obs):
+        reply = case["reply"]
+        if "error" in reply and reply["error"]:
+            return C06.Main.oracle(self, case, obs)
+        if "result" not in reply and ("error" not in reply or reply["error"] is None) and "jsonrpc" not in reply:
+            return None       # neither result nor error in a 1.0-form object: not a response object at all
+        o = obs[0]
+        if o[0] != "ok":
+            return None if "result" not in reply else ("C04:client-notify-raised", "the peer answered %r and proxy._notify.m raised %s" % (reply, type(o[1]).__name__))
+        if o[1] is not None:
+            return ("C04:client-notify-returned-value", "the peer answered %r and proxy._notify.m returned %r" % (reply, o[1]))
+        return None
+
+    def nontrivial(self, case, obs):
+        return "result" in case["reply"]
+
+
+class Overlap(pipeline.Stream):
+    """two handler threads on ONE dispatcher (what a thread-pooled or threading server does): a request whose method is still
+    running (held at a gate inside the callable) while another request is dispatched from start to end.  The dispatcher keeps
+    no per-request state on itself, so each of the two is one Model/Dispatch.v case on its own; the statement's clauses
+    (no response object for a notification, executed once) are checked on both."""
+    name = "overlap"
+    model_imports = "Dispatch EndToEnd"
+    case_type = "list dcase"
+    check_fn = "registry_check"
+    shard = 200
+
+    SLOW = ["note-absent", "note-null", "note-empty", "note-in-batch", "call", "note-fail", "call-fail"]
+    FAST = ["call-ok", "call-echo", "call-fail", "call-nope", "note-ok", "batch"]
+
+    def setup(self):
+        import jsonrpclib
+        self.J = jsonrpclib
+
+    def gen(self, tier, rng):
+        cases = []
+        for ver, slow, fast, v2 in itertools.product([1.0, 2.0], self.SLOW, self.FAST, [True, False]):
+            cases.append({"ver": ver, "slow": slow, "fast": fast, "v2": v2})
+        return cases
+
+    def _bodies(self, case):
+        v2 = case["v2"]
+        slow, fast = case["slow"], case["fast"]
+        gate = "gatefail" if slow.endswith("fail") else "gate"
+        if slow.startswith("note"):
+            rid = {"note-absent": GN.ABSENT, "note-null": None, "note-empty": "", "note-in-batch": GN.ABSENT, "note-fail": None}[slow]
+            if not v2 and rid is GN.ABSENT:
+                rid = None           # a 1.0-form request must carry an id member to be well-formed
+            e = GN.req(gate, ["slow-arg"], rid, v2)
+            sb = [GN.req("ok", [], "b-1", v2), e] if slow == "note-in-batch" else e
+        else:
+            sb = GN.req(gate, ["slow-arg"], "slow-id", v2)
+        fb = {"call-ok": GN.req("ok", [], 41, v2), "call-echo": GN.req("echo", ["fast-arg"], "fast-id", v2),
+              "call-fail": GN.req("fail", [], 42, v2), "call-nope": GN.req("nope", [], 43, v2),
+              "note-ok": GN.req("ok", [], GN.ABSENT if v2 else None, v2),
+              "batch": [GN.req("echo", [1], 44, v2), GN.req("ok", [], None, v2)]}[fast]
+        return json.dumps(sb), json.dumps(fb)
+
+    def _dcase(self, case):
+        dc = GN.base_case(case["ver"], "default")
+        dc["funcs"] = dict(dc["funcs"], gate=GN.ECHO, gatefail=GN.FAIL)
+        return dc
+
+    def run_impl(self, case):
+        import threading
+        dc = self._dcase(case)
+        rt = K.Runtime(dc)
+        entered, release = threading.Event(), threading.Event()
+
+        def gated(cid):
+            def fn(*a, **k):
+                entered.set()
+                release.wait(20)
+                return rt.fns[cid](*a, **k)
+            return fn
+        rt.disp.register_function(gated(GN.ECHO), "gate")
+        rt.disp.register_function(gated(GN.FAIL), "gatefail")
+        sb, fb = self._bodies(case)
+        res = {}
+
+        def slow():
+            try:
+                res["slow"] = ("ok", rt.disp._marshaled_dispatch(sb))
+            except Exception as ex:       # noqa
+                res["slow"] = ("raise", ex)
+        th = threading.Thread(target=slow, daemon=True)
+        try:
+            th.start()
+            if not entered.wait(20):
+                return {"error": "the slow request never reached its method"}
+            try:
+                res["fast"] = ("ok", rt.disp._marshaled_dispatch(fb))
+            except Exception as ex:       # noqa
+                res["fast"] = ("raise", ex)
+            release.set()
+            th.join(20)
+        finally:
+            release.set()
+            rt.close()
+        with rt.lock:
+            evs = list(rt.events)
+        return {"slow": res.get("slow"), "fast": res.get("fast"), "bodies": (sb, fb),
+                "slow_log": [e for (is_main, e) in evs if not is_main], "fast_log": [e for (is_main, e) in evs if is_main]}
+
+    def oracle(self, case, obs):
+        if "error" in obs:
+            return ("C04:overlap-harness", obs["error"])
+        for who in ("slow", "fast"):
+            r = obs[who]
+            body = json.loads(obs["bodies"][0 if who == "slow" else 1])
+            if r is None or r[0] != "ok":
+                return ("C04:dispatcher-raised", "%s request %r: %r" % (who, body, r))
+            entries = body if isinstance(body, list) else [body]
+            notes = [e for e in entries if isinstance(e, dict) and ("id" not in e or e["id"] in (None, ""))]
+            answered = [e for e in entries if e not in notes]
+            text = r[1]
+            got = [] if not text else json.loads(text)
+            got = got if isinstance(got, list) else [got]
+            if len(got) != len(answered):
+                return ("C04:notification-answered", "%s request %r (%d notification(s)) while the other request was in progress: reply %r" % (
+                    who, body, len(notes), text))
+            for g, e in zip(got, answered):
+                if not isinstance(g, dict) or g.get("id") != e["id"]:
+                    return ("C04:reply-id-of-another-request", "%s request %r answered %r" % (who, body, text))
+            log = obs[who + "_log"]
+            ncalls = len([e for e in log if e[0] == "call"])
+            want = len([e for e in entries if e.get("method") != "nope"])
+            if ncalls != want:
+                return ("C04:not-executed-exactly-once", "%s request %r: %d invocation(s)" % (who, body, ncalls))
+        return None
+
+    def encode(self, case, obs):
+        if "error" in obs:
+            return None
+        import jsonrpclib.config as C
+        dc = self._dcase(case)
+        terms = []
+        for who, i in (("slow", 0), ("fast", 1)):
+            r = obs[who]
+            if r is None or r[0] != "ok":
+                return None
+            o = {"raised": None, "text": r[1], "log": obs[who + "_log"], "drained": []}
+            t = K.encode_case(dc, o, K.parse_outcome(self.J, obs["bodies"][i], C.Config(version=case["ver"])))
+            if t is None:
+                return None
+            terms.append(t)
+        from harness.core import gallina as G
+        return G.g_list(terms)
+
+    def nontrivial(self, case, obs):
+        return True
+
+    def kind(self, case, obs):
+        return "server v%s / slow %s / fast %s" % (case["ver"], case["slow"], case["fast"])
+
+    def describe(self, case, obs):
+        return {"case": case, "bodies": list(obs.get("bodies", [])), "slow_reply": repr(obs.get("slow")), "fast_reply": repr(obs.get("fast"))}
+
+
 def _rekey(prefix, fn):
     def oracle(case, o):
         bad = fn(case, o)
@@ -305,4 +489,4 @@ class PoolDependency(PC.PoolStream):
 
 
 def streams():
-    return [Main(), Client(), PoolDependency()]
+    return [Main(), Client(), ChattyPeer(), Overlap(), PoolDependency()]
